@@ -246,11 +246,13 @@ svx_read_header	(SF_PRIVATE *psf)
 
 					psf_log_printf (psf, " %M : %u\n", marker, chunk_size) ;
 
-					if (strlen (psf->file.name) != chunk_size)
-					{	if (chunk_size > sizeof (psf->file.name) - 1)
-							return SFE_SVX_BAD_NAME_LENGTH ;
-
-						psf_binheader_readf (psf, "b", psf->file.name, chunk_size) ;
+					if (chunk_size > sizeof (psf->file.name) - 1)
+					{	/* svx_write_header emits such a chunk for a file name of 254 or 255 characters. */
+						psf_log_printf (psf, "  *** NAME chunk too long for the name buffer, skipped.\n") ;
+						psf_binheader_readf (psf, "j", chunk_size) ;
+						}
+					else if (strlen (psf->file.name) != chunk_size)
+					{	psf_binheader_readf (psf, "b", psf->file.name, chunk_size) ;
 						psf->file.name [chunk_size] = 0 ;
 						}
 					else
